@@ -42,4 +42,17 @@ Theorem blockstore_modes :
   all_under (fun m => match m with MNone => false | _ => true end) bs_op_Iterator = true.
 Proof. vm_compute. repeat split. Qed.
 
+(* the code performs no shared access that the access-by-access model of Blockstore.v
+   (Part 2) does not have: Put reads/writes blks and keys, Get reads blks, Iterator
+   reads keys and blks; nothing else *)
+Definition accesses_within (allowed : list (N * bool)) (o : N) : bool :=
+  forallb (fun s : section =>
+    forallb (fun a => existsb (fun p => (fst p =? avar a) && Bool.eqb (snd p) (awrite a)) allowed) (snd s))
+    (sections_of blockstore_table o).
+Theorem blockstore_accesses_within_model :
+  accesses_within [(bs_var_blks, false); (bs_var_blks, true); (bs_var_keys, false); (bs_var_keys, true)] bs_op_Put = true /\
+  accesses_within [(bs_var_blks, false)] bs_op_Get = true /\
+  accesses_within [(bs_var_keys, false); (bs_var_blks, false)] bs_op_Iterator = true.
+Proof. vm_compute. repeat split. Qed.
+
 Print Assumptions blockstore_race_free.
